@@ -73,6 +73,11 @@ def shapes(tier, seed):
         for n in ((1, 2) if q else (1, 2, 3)):
             for ct in ('exact', 'utf8', 'other-type', 'absent'):
                 out.append(('rawbody', fold, ct, n))
+    # both options at once (fold == 's3': SignatureOptions { s3: true, url_encode_form: true }): folding is unaffected by the S3 path rules
+    for ct in ('exact', 'utf8', 'unknown-charset', 'other-type', 'absent'):
+        for u, b in [(lay1[1], lay1[2]), ((), lay2[3])]:
+            out.append(('params', 's3', ct, u, b))
+        out.append(('rawbody', 's3', ct, 2))
     if not q:
         for u in [(('a', 2),), (('a', 1), ('b', 1), ('a', 1))]:
             for b in [(('a', 2),), (('b', 1), ('a', 1), ('a', 1))]:
@@ -110,7 +115,7 @@ def run_shape(prog, shape, tier, seed, res):
             headers.append(('content-type', conc_bytes(CTYPES[ct])))
         rq = Req('POST', b'/p', url if url else None, headers, bod, 'bytes')
         request = rq.build()
-        r = m.call('CanonicalRequest::from_request_parts', [request.parts, request.body, options(False, fold)], None)
+        r = m.call('CanonicalRequest::from_request_parts', [request.parts, request.body, options(fold == 's3', bool(fold))], None)
         info = None
         if r.variant == 'Ok':
             cr, parts, rbody = r.fields[0].fields
@@ -215,7 +220,7 @@ def run_shape(prog, shape, tier, seed, res):
 # --------------------------------------------------------------------------- concrete side
 
 def native_canon(rp, j, fold):
-    r = rp.ask({'op': 'canonical', 'request': j, 'options': {'s3': False, 'url_encode_form': fold}})
+    r = rp.ask({'op': 'canonical', 'request': j, 'options': {'s3': fold == 's3', 'url_encode_form': bool(fold)}})
     if 'ok' in r:
         o = r['ok']
         return ('ok', o['canonical_query'], o['body_sha256'], o['returned_body_hex'], o['returned_uri'])
@@ -233,7 +238,7 @@ def mirse_canon(prog, j, fold):
         rq = Req(j['method'], path.encode('latin-1'), query.encode('latin-1') if sep else None,
                  [(n, bytes.fromhex(v)) for n, v in j['headers']], bytes.fromhex(j['body_hex']), 'bytes')
         request = rq.build()
-        r = m.call('CanonicalRequest::from_request_parts', [request.parts, request.body, options(False, fold)], None)
+        r = m.call('CanonicalRequest::from_request_parts', [request.parts, request.body, options(fold == 's3', bool(fold))], None)
         if r.variant != 'Ok':
             return ('err', r.fields[0].variant)
         cr, parts, rbody = r.fields[0].fields
